@@ -30,10 +30,10 @@ fn c13_offsets_net() {
     }
 }
 
-/// C13 K<= (BOUND: STEPS = 12 scripted accesses; two 4-entry queues built by the real constructor): the MAC
+/// C13 K<= (BOUND: STEPS = 12 scripted accesses; two 4-entry queues built by the real constructor; unwind 40 = the bitflags table of from_bits_truncate): the MAC
 /// stored by the real `VirtIONetRaw::new` is the MAC of ONE configuration.
 #[kani::proof]
-#[kani::unwind(18)]
+#[kani::unwind(40)]
 fn c13_net_mac_untorn() {
     let t = ScriptT::any(DeviceType::Network);
     t.assume_honours_generation();
